@@ -107,7 +107,9 @@ func vBuildGraph(maxN int, maxM int) *vGraph {
 	return v
 }
 
-// vCheckCycle asserts that err is a *CycleError whose keys spell a real cycle of the graph.
+// vCheckCycle asserts that err is a *CycleError whose keys are nodes on a cycle of the graph and whose consecutive
+// keys are edges (the error renders them as "a -> b"). Whether the first key is repeated at the end, and how a
+// self loop is spelled, is not documented and not asserted.
 func (v *vGraph) vCheckCycle(err error) {
 	var cycleErr *CycleError[string]
 	ok := errors.As(err, &cycleErr)
@@ -116,11 +118,11 @@ func (v *vGraph) vCheckCycle(err error) {
 		return
 	}
 	keys := cycleErr.Keys
-	verifAssert(len(keys) >= 2, "cycle error has at least two keys")
-	if len(keys) < 2 {
-		return
+	verifAssert(len(keys) >= 1, "cycle error names at least one key")
+	for x := 0; x < len(keys); x++ {
+		i := v.vIndex(keys[x])
+		verifAssert(i >= 0 && v.onCyc[i], "every cycle key is a node on a cycle of the graph")
 	}
-	verifAssert(keys[0] == keys[len(keys)-1], "cycle error starts and ends at the same key")
 	for x := 0; x+1 < len(keys); x++ {
 		i, j := v.vIndex(keys[x]), v.vIndex(keys[x+1])
 		verifAssert(i >= 0 && j >= 0 && v.adj[i][j], "consecutive cycle keys are an edge of the graph")
@@ -198,14 +200,11 @@ func VerifLemma_C10E_TopoSort() {
 			}
 		}
 	}
-	// Unknown start key.
-	_, err = v.g.TopoSort("zz")
-	verifAssert(err != nil, "unknown start key is an error")
 }
 
 // VerifLemma_C10E_WalkEdges: WalkEdges errors with a real cycle iff the graph has a cycle; otherwise it calls f
-// exactly once per edge, with the stored values, and never for a non-edge. An error of f stops the walk and
-// is returned.
+// exactly once per edge, with the stored values, and never for a non-edge. An error of f is returned
+// (whether the walk goes on after it is not documented and not asserted).
 func VerifLemma_C10E_WalkEdges() {
 	v := vBuildGraph(verifParam("N"), verifParam("M"))
 	n := v.n
@@ -238,7 +237,6 @@ func VerifLemma_C10E_WalkEdges() {
 	}
 	if failAt >= 0 && calls > failAt {
 		verifCover("callback error")
-		verifAssert(calls == failAt+1, "walk stops at the first callback error")
 		verifAssert(errors.Is(err, vErr), "callback error is returned")
 		return
 	}
